@@ -417,3 +417,38 @@ func runDebugPaths(spec string) int {
 func init() {
 	debugRules["writematch"] = func(c *Ctx, r *Report) { ruleWriteMatchCE(c, r, "") }
 }
+
+func init() {
+	debugCmds["forwardee"] = func(c *Ctx) {
+		fn := c.Func("", "readIndexBody")
+		g, a := forwardee(c, fn)
+		fmt.Println("forwardee", g, a)
+		if fn != nil {
+			for _, b := range fn.Blocks {
+				for _, ins := range b.Instrs {
+					fmt.Printf("  %T %s\n", ins, ins)
+				}
+			}
+		}
+	}
+}
+
+func init() {
+	debugCmds["v11"] = func(c *Ctx) {
+		fn := c.Func("", "streamReader.readTail")
+		rib0 := c.Func("", "readIndexBody")
+		fw, argOf := forwardee(c, rib0)
+		fSR := c.Field("", "streamReader.index")
+		c.curRoot = fn
+		for _, b := range c.GB(fn) {
+			for _, ins := range b.Instrs {
+				if call, ok := ins.(*ssa.Call); ok && call.Call.StaticCallee() == fw {
+					fmt.Println("call", call, "in", call.Parent().Name(), "args", len(call.Call.Args), argOf)
+					for i, a := range call.Call.Args {
+						fmt.Printf("  arg %d %T %s lenOf=%v\n", i, a, a, roleLenOf(roleFieldLoad(fSR))(a))
+					}
+				}
+			}
+		}
+	}
+}
